@@ -35,7 +35,8 @@ type kase struct {
 	// are held to the soundness oracle as well; 2 a second Optimise call that is REJECTED (12, 0.5) comes
 	// between BuildIndex and Align (it must leave the accepted settings alone); 3 the hits judged are those
 	// of AlignFrom(Trapezoids(), strand) called after Align on the same aligner; 4 index and settings are taken
-	// over with Share from another aligner (same target, another query) that has searched both strands
+	// over with Share from another aligner (same target, another query) that has searched both strands; 5 the
+	// aligner was optimised, indexed and used for a minimum length four times as large first
 	Order int `json:"order,omitempty"`
 }
 
@@ -88,6 +89,13 @@ func mutate(rep []byte, variant string) ([]byte, int) {
 			cp[p] = rot(cp[p])
 		}
 		return cp, 3
+	case "subevery": // a substitution at a/2, a/2+a, a/2+2a, ...: identity 1-1/a
+		n := 0
+		for p := a / 2; p < len(cp); p += a {
+			cp[p] = rot(cp[p])
+			n++
+		}
+		return cp, n
 	case "del":
 		return append(cp[:a:a], cp[a+b:]...), b
 	case "ins":
@@ -115,6 +123,10 @@ func core(L int, variant string) (lo, hi, qlo, qhi int) {
 		es = []edit{{L / 4, 1, 1}, {L / 2, 1, 1}}
 	case "sub3":
 		es = []edit{{L / 4, 1, 1}, {L / 2, 1, 1}, {3 * L / 4, 1, 1}}
+	case "subevery":
+		for p := a / 2; p < L; p += a {
+			es = append(es, edit{p, 1, 1})
+		}
 	case "del":
 		es = []edit{{a, b, 0}}
 	case "ins":
@@ -264,6 +276,12 @@ func (r *runner) align(k kase, target, query []byte, comp bool) (hits, other dp.
 		p.Share(m)
 		hits, err = p.Align(comp)
 		return hits, nil, err
+	}
+	if k.Order == 5 {
+		// the aligner was first set up (and used) for repeats four times as long, then re-optimised
+		if p.Optimise(4*k.MinLen, k.MinId) == nil && p.BuildIndex() == nil {
+			p.Align(comp)
+		}
 	}
 	if err := p.Optimise(k.MinLen, k.MinId); err != nil {
 		return nil, nil, fmt.Errorf("Optimise: %v", err)
@@ -428,7 +446,7 @@ func check(c *enum.Ctx, r *runner, k kase) {
 
 func run(c *enum.Ctx) {
 	pals.MaxKmerLen = 8
-	c.Rule("fixed backgrounds generated from constants (xorshift with constant seeds; 2 pair backgrounds of 1500/1300 letters, thorough 4 incl. one low-complexity; self: one sequence of 1700); (minHitLen,minId) in {(30,0.9),(50,0.9),(50,0.94),(80,0.85)} as accepted by Optimise with MaxKmerLen lowered to 8; a repeat of length L in {minHitLen+1, +2, +5, +10, 1.5 minHitLen, 3 minHitLen} planted at target positions {0, three interior, end} x 40 consecutive query positions (one full tube period) plus both query ends; variants: exact, a substitution at every third position, 2 and 3 substitutions, a deletion and an insertion of length 1-2 at every tenth position, reverse-complemented copies (complement-strand search), self comparison (also under the permissive settings (80,0.8),(100,0.8),(150,0.85) on sequences of 2000/3500 (5000) letters, where the filter is noisy next to the main diagonal, and at 64 consecutive sequence lengths = every position of the tube grid relative to the main diagonal); targets of 2^k-1, 2^k, 2^k+1 letters (k=11..14) and of 6000, 11000, 20000 letters with a comfortable repeat at the start, near it, in the middle and at the end; a query longer than the target (900 vs 1500) with copies before, around and beyond the length of the target; every reverse-complement case and every exact/sub2/sub3 case again as the second Align call on an aligner value that has already searched the other strand (both result sets judged), after a second, rejected Optimise(12, 0.5), through AlignFrom(Trapezoids()) after Align, and with index and settings taken over by Share from an aligner that searched another query (quick: alternating); soundness oracle on EVERY hit of every run; recall oracle for identity >= minId+0.05 and a core (the repeat without edits so close to an end that leaving them out scores at least as well: substitutions with < 5, indels of b with < 3b+2 letters beyond them) longer than minHitLen in both sequences; a hit must overlap half of the core in both; non-trivial = every run (each contains a planted repeat)")
+	c.Rule("fixed backgrounds generated from constants (xorshift with constant seeds; 2 pair backgrounds of 1500/1300 letters, thorough 4 incl. one low-complexity; self: one sequence of 1700); (minHitLen,minId) in {(30,0.9),(50,0.9),(50,0.94),(80,0.85)} as accepted by Optimise with MaxKmerLen lowered to 8; a repeat of length L in {minHitLen+1, +2, +5, +10, 1.5 minHitLen, 3 minHitLen} planted at target positions {0, three interior, end} x 40 consecutive query positions (one full tube period) plus both query ends; variants: exact, a substitution at every third position, 2 and 3 substitutions, a deletion and an insertion of length 1-2 at every tenth position, reverse-complemented copies (complement-strand search), self comparison (also under the permissive settings (80,0.8),(100,0.8),(150,0.85) on sequences of 2000/3500 (5000) letters, where the filter is noisy next to the main diagonal, and at 64 consecutive sequence lengths = every position of the tube grid relative to the main diagonal); a minimum identity of 0 (minimum lengths 60 and 100) with repeats of 87.5 %, 92 % and 95 % identity; targets of 2^k-1, 2^k, 2^k+1 letters (k=11..14) and of 6000, 11000, 20000 letters with a comfortable repeat at the start, near it, in the middle and at the end; a query longer than the target (900 vs 1500) with copies before, around and beyond the length of the target; every reverse-complement case and every exact/sub2/sub3 case again as the second Align call on an aligner value that has already searched the other strand (both result sets judged), after a second, rejected Optimise(12, 0.5), through AlignFrom(Trapezoids()) after Align, after a first set-up and use for a minimum length four times as large, and with index and settings taken over by Share from an aligner that searched another query (quick: alternating); soundness oracle on EVERY hit of every run; recall oracle for identity >= minId+0.05 and a core (the repeat without edits so close to an end that leaving them out scores at least as well: substitutions with < 5, indels of b with < 3b+2 letters beyond them) longer than minHitLen in both sequences; a hit must overlap half of the core in both; non-trivial = every run (each contains a planted repeat)")
 	c.Assume("pals.MaxKmerLen is lowered to 8 by the harness (small index)", "identity comfortably above the threshold = at least 0.05 above")
 	work := os.Getenv("VERIF_WORK")
 	if work == "" {
@@ -584,6 +602,18 @@ func run(c *enum.Ctx) {
 			}
 		}
 	}
+	// the lower edge of the identity setting: a minimum identity of 0 is a setting like any other (a repeat
+	// of 80-90 % identity is then "comfortably above" it)
+	for _, ml := range []int{60, 100} {
+		for _, t0 := range []int{0, 411, lenT - 3*ml} {
+			for _, q0 := range []int{0, 601, 617} {
+				vs := []string{"exact", "sub3", "subevery 8", "subevery 12", "subevery 20"}
+				for _, v := range vs {
+					cases = append(cases, kase{BgT: 1, BgQ: 2, LenT: lenT, LenQ: lenQ, MinLen: ml, MinId: 0, L: 3 * ml, T0: t0, Q0: q0, Variant: v})
+				}
+			}
+		}
+	}
 	// the same searches as the second call on an aligner value that has already searched the other strand
 	for _, k := range cases[:len(cases):len(cases)] {
 		if k.Rev || k.Variant == "exact" || k.Variant == "sub2" || k.Variant == "sub3" {
@@ -599,8 +629,8 @@ func run(c *enum.Ctx) {
 			continue
 		}
 		n23++
-		for _, o := range []int{2, 3, 4} {
-			if c.Quick && n23%3 != o%3 {
+		for _, o := range []int{2, 3, 4, 5} {
+			if c.Quick && n23%4 != o%4 {
 				continue
 			}
 			if o == 4 && k.Self {
